@@ -868,6 +868,10 @@ func findArrowField(rt reflect.Type, rv reflect.Value, arrowName string) (reflec
 
 // deserializeArrowSerializable reads IPC stream bytes into an ArrowSerializable Go struct.
 func deserializeArrowSerializable(targetType reflect.Type, data []byte) (reflect.Value, error) {
+	// data comes from a client-controlled binary cell; see checkIPCStreamFraming.
+	if _, err := checkIPCStreamFraming(data); err != nil {
+		return reflect.Value{}, fmt.Errorf("reading ArrowSerializable IPC: %w", err)
+	}
 	reader, err := ipc.NewReader(bytes.NewReader(data))
 	if err != nil {
 		return reflect.Value{}, fmt.Errorf("reading ArrowSerializable IPC: %w", err)
